@@ -86,8 +86,12 @@ def run(ctx):
     R5 = rep.rule('C02.R5', 'the two AssetMap impls use the same HashMap operation per trait method', floor=3)
     R6 = rep.rule('C01.R4', 'key hash/eq use both id and type (shared with C01)', floor=7)
     R7 = rep.rule('C01.R7', 'take/remove (get_shard_mut) look in the shard that get/insert (get_shard) use (shared with C01)', floor=2)
+    R8 = rep.rule('C10.R8', 'AssetMap::insert stores its entry argument if and only if the key was absent (shared with C10)', floor=2)
     for cfg, F in ctx.cfgs():
         hr = 'hot-reloading' in ctx.cfg_features[cfg]
+        from c10 import r8 as stores_the_entry_argument
+        stores_the_entry_argument(R8, cfg, F)
+        R8.finish_cfg(cfg)
         r1(R1, cfg, F, hr)
         r2(R2, cfg, F)
         r3(R3, cfg, F)
@@ -151,7 +155,8 @@ def r2(R2, cfg, F):
     ins = [c for c in b.calls() if c.callee and c.callee.defp == 'anycache::AssetMap::insert']
     ld = [c for c in b.calls() if c.callee and c.callee.best == 'asset::load_and_record']
     br = [c for c in b.calls() if c.callee and re.search(common.TRY_BRANCH, c.callee.best) or (c.callee and c.callee.defp == 'std::ops::Try::branch')]
-    br = [c for c in br if ld and b.access_path(c.args[0]) == ['call@bb%d' % ld[0].bb]]
+    # load_and_record returns (Result<CacheEntry>, Recorded); the `?` is applied to field 0
+    br = [c for c in br if ld and b.access_path(c.args[0]) in (['call@bb%d' % ld[0].bb], ['call@bb%d' % ld[0].bb, '0'])]
     if len(ins) != 1 or len(ld) != 1 or len(br) != 1:
         R2.unrecognised(cfg, b.path, 'one load_and_record, one `?` on it, one AssetMap::insert', b.loc())
         return
@@ -304,7 +309,11 @@ def r5(R5, cfg, F):
         want = {'get': [('get', 'READ')], 'insert': [('entry', 'ENTRY'), ('or_insert', 'KEEP_FIRST')], 'contains_key': [('contains_key', 'READ')]}[meth]
         if len(ops) == 2:
             vals = list(ops.values())
-            R5.check(vals[0] == vals[1] == want, cfg, 'anycache::AssetMap::' + meth, 'both-impls-use-' + '+'.join(n for n, _ in want),
+            if meth == 'insert':   # or_insert / or_insert_with / match on the entry are the same keep-first operation
+                same = vals[0] == vals[1] and [k for _, k in vals[0] if k != 'READ'] == [k for _, k in want]
+            else:
+                same = vals[0] == vals[1] == want
+            R5.check(same, cfg, 'anycache::AssetMap::' + meth, 'both-impls-use-' + '+'.join(n for n, _ in want),
                      'the two AssetMap impls must implement `%s` with the same map operation %s; found %s' % (meth, want, ops))
             # key arguments
             for m in ops:
